@@ -15,6 +15,12 @@ def check(rep):
     ER.rule_skip_guard(ctx, rid="C01.SKIP-GUARD")
     ER.rule_fingerprint_recorded(ctx, rid="C01.FINGERPRINT-RECORDED")
     ER.rule_installed_function(ctx, rid="C01.INSTALLED-FUNCTION", strict=False, facets=("namespace", "installed"))
+    # state that survives a compilation and is never reset can make the same text compile differently the next time
+    COMPILE_PATH = {"language/lexer.py", "language/grammar.py", "codegen/python/python_generator.py", "experiment_evaluator.py",
+                    "data_structures/syntax_tree.py"}
+    ER.rule_no_shared_state(ctx, rid="C01.NO-SHARED-COMPILE-STATE",
+                            only=lambda m, fn: m.rel in COMPILE_PATH or (m.rel == "utils/wraper_functions.py" and fn.name == "parse_source"),
+                            floor=20, accumulating_only=True)
     PR.rule_compiles(ctx, rid="C01.SHAPE-COMPILES", strict=False)
     n = PR.rule_key_order_independent(ctx)
     rep.floor("templates checked for set-order dependence", n, 180)
